@@ -151,8 +151,8 @@ def gen_tbag_case(rng, R):
             elif k < 0.85:
                 t = rng.choice(tags)
                 tags.remove(t); dead.append(t)
-                ops.append(f"E {rng.randrange(R)} {t}")
-                ops += ["B"]      # erase and visit of one tag must not race
+                # erase and visit of one tag must not race (async_visit of a missing tag default-constructs it)
+                ops += ["B", f"E {rng.randrange(R)} {t}", "B"]
             else:
                 ops.append(f"i {rng.randrange(R)} {rng.randrange(0, 1000)}")
                 # tag of this insert is determined when the script is interpreted (see interpret_tbag)
